@@ -67,7 +67,7 @@ def build_plan(choice: Choice, tier):
     if huge:
         n_ops = 1 + d(3, "ops.huge")
     for _ in range(n_ops):
-        k = d(23, "op")
+        k = d(24, "op")
         if k == 0:
             ops.append(["set", d(12, "i") - 2, val()])
         elif k == 1:
@@ -105,6 +105,8 @@ def build_plan(choice: Choice, tier):
             ops.append(["count_of", d(10, "i")])
         elif k == 22:
             ops.append(["contains", d(10, "i")])
+        elif k == 23:
+            ops.append(["reopen"])      # close() + open(): the edits live in memory and must survive it
         else:
             fault = d(8, "save.fault")
             ops.append(["save", ENDINGS[d(len(ENDINGS), "ending")], d(2, "save.as_handle"),
@@ -286,6 +288,9 @@ def execute(plan, choice, tmpdir, trace):
             i = op[1]
             val = model[i] if i < len(model) else to_item("absent-value")
             expect_same("remove", lambda: obj.remove(val), lambda: model.remove(val), True)
+        elif k == "reopen":
+            obj.close()
+            obj.open()
         elif k == "reverse":
             expect_same("reverse", lambda: obj.reverse(), lambda: model.reverse(), len(model) > 1)
         elif k in ("index_of", "count_of", "contains"):
@@ -415,6 +420,7 @@ def execute(plan, choice, tmpdir, trace):
                 do(op)
                 yield op[0] if op[0] != "save" else f"save:{op[3]}"
 
+    fds_before = set(os.listdir("/proc/self/fd"))
     try:
         with obj:
             compare_all("initial")
@@ -428,6 +434,10 @@ def execute(plan, choice, tmpdir, trace):
         m = re.findall(r'File "[^"]*windpyutils/([^"]+)", line \d+, in (\w+)', tb)
         viol.append({"class": "exception", "site": f"{type(e).__name__}@{m[-1][1] if m else '?'}",
                      "message": repr(e) + tb[-600:]})
+    leaked = len(set(os.listdir("/proc/self/fd")) - fds_before)
+    if leaked and not any(x["class"] == "exception" for x in viol):
+        viol.append({"class": "resource", "site": "descriptor-leak",
+                     "message": f"{leaked} file descriptors are still open after the file object was closed"})
     seen = set()
     out = []
     for x in viol:
